@@ -613,33 +613,56 @@ where
             }
             if !added_extra && round >= cfg.rounds / 3 && i == k / 2 {
                 evlog::log(kind::CALL, 10, extra as u64);
-                director::set_rule(site::REG_DONE, RuleSpec { mode: mode::RAISE, class_mask: class::MAIN, nth: 1, arg: extra as usize, ..Default::default() });
-                for st in [site::IT_ADD_LOCKED, site::IT_ADD_REGISTERED] {
-                    director::set_rule(st, RuleSpec { mode: mode::DELAY, p: 0, max: 1 + rng.below(4000) as u32, ..Default::default() });
+                // Two threads add the very same signal. The first is frozen right after its registration, before it has
+                // recorded the id (IT_ADD_REGISTERED); the second must then either wait for it or see the signal as
+                // watched - never register a second action. A real delivery of the signal is also raised on the first
+                // thread inside its registration (REG_DONE).
+                director::set_rule(site::REG_DONE, RuleSpec { mode: mode::RAISE, class_mask: class::MUTATOR, nth: 1, arg: extra as usize, ..Default::default() });
+                director::set_rule(site::IT_ADD_REGISTERED, RuleSpec { mode: mode::PAUSE, class_mask: class::MUTATOR, nth: 1, arg: 2, ..Default::default() });
+                let spawn_adder = |tid: u32, h: Handle| {
+                    let ktid = Arc::new(AtomicI32::new(0));
+                    let k2 = ktid.clone();
+                    let j = std::thread::spawn(move || {
+                        crate::set_thread(tid, class::MUTATOR);
+                        k2.store(crate::sig::gettid(), Ordering::SeqCst);
+                        let r = h.add_signal(extra);
+                        director::lib_exit();
+                        director::flush_counts();
+                        r.is_ok()
+                    });
+                    (j, ktid)
+                };
+                let (ja, _ka) = spawn_adder(7, handle.clone());
+                let tw = crate::now_ms();
+                while director::parked(2) != Some(7) && !ja.is_finished() && crate::now_ms() - tw < 5000 {
+                    std::thread::yield_now();
                 }
-                // a second thread adds the very same signal at the same moment (must be a no-op for one of them)
-                let h2 = handle.clone();
-                let go = Arc::new(AtomicBool::new(false));
-                let go2 = go.clone();
-                let twin = std::thread::spawn(move || {
-                    crate::set_thread(7, class::MUTATOR);
-                    director::seed_thread(extra as u64);
-                    while !go2.load(Ordering::SeqCst) {
-                        std::hint::spin_loop();
+                let (jb, kb) = spawn_adder(8, handle.clone());
+                // B is either done (it saw the signal as watched, or - wrongly - registered again) or waits for A
+                let tw = crate::now_ms();
+                loop {
+                    if jb.is_finished() {
+                        break;
                     }
-                    let r = h2.add_signal(extra);
-                    director::lib_exit();
-                    r.is_ok()
-                });
-                go.store(true, Ordering::SeqCst);
-                let r = handle.add_signal(extra);
-                let twin_ok = twin.join().unwrap_or(false);
+                    let kt = kb.load(Ordering::SeqCst);
+                    let zero = || 0u64;
+                    if kt != 0 && crate::probe::stably_blocked_in(kt, &[202], None, 3, 1, &zero) {
+                        break;
+                    }
+                    if crate::now_ms() - tw > 5000 {
+                        break;
+                    }
+                    std::thread::yield_now();
+                }
+                director::rule_off(site::IT_ADD_REGISTERED);
+                director::open_gate(2);
+                let r: Result<(), ()> = if ja.join().unwrap_or(false) { Ok(()) } else { Err(()) };
+                let twin_ok = jb.join().unwrap_or(false);
+                director::close_gate(2);
                 if !twin_ok {
                     tot.bad10.push(format!("a concurrent add_signal({}) from a second thread failed [{}]", extra, label));
                 }
                 director::rule_off(site::REG_DONE);
-                director::rule_off(site::IT_ADD_LOCKED);
-                director::rule_off(site::IT_ADD_REGISTERED);
                 evlog::log(kind::RET, 10, ((r.is_ok() as u64) << 32) | extra as u64);
                 director::lib_exit();
                 added_extra = true;
